@@ -1345,18 +1345,17 @@ func (node *Node) GetHeaders(ctx context.Context, height, maxCount int) (*client
 	var headers []*wire.BlockHeader
 	startHeight := height
 	if height == -1 {
-		startHeight = node.blocks.LastHeight()
-		if startHeight > maxCount {
-			startHeight -= maxCount
-		} else {
+		// Most recent headers, ending at the tip.
+		startHeight = node.blocks.LastHeight() - maxCount + 1
+		if startHeight < 0 {
 			startHeight = 0
 		}
 	}
-	for i := startHeight; i <= startHeight+maxCount; i++ {
+	for i := startHeight; i < startHeight+maxCount; i++ {
 		header, err := node.blocks.Header(ctx, i)
 		if err != nil {
 			if errors.Cause(err) == internalStorage.ErrInvalidHeight {
-				return &client.Headers{}, nil
+				break // reached the tip
 			}
 			return nil, errors.Wrap(err, "header")
 		}
